@@ -37,6 +37,13 @@ def gen_cases(tier, seed):
         plist += [p for p in plans.all_placements(n, ALPHABET, 1) if _relevant(p)]
         plist += [p for p in plans.all_placements(n, ALPHABET, 2) if _relevant(p)]
         plist += list(plans.all_placements(n, [['pause', 'p'], ['play']], 3))
+        # pause / play issued from a listener notified during a transition, after a pause or play at a slot
+        for ev in ('running', 'waiting', 'paused', 'played'):
+            for k in (1, 2):
+                for act in (['pause', 'p'], ['play']):
+                    for s0 in range(0, n + 1, 2 if tier == 'quick' else 1):
+                        for other in (['pause', 'p'], ['play']):
+                            plist.append([{'at': s0, 'act': other}, {'at': ['listener', ev, k], 'act': act}])
         if tier == 'thorough':
             plist += [p for p in plans.sampled_placements(rng, n, ALPHABET, 3, 1500) if _relevant(p)]
             plist += [p for p in plans.sampled_placements(rng, n, ALPHABET, 4, 800) if _relevant(p)]
